@@ -3,7 +3,7 @@
 From Coq Require Import ZArith List Bool Arith Lia.
 From Coq Require Import QArith.
 From RV Require Import Val Syntax Rho Offline Online Sat IA Pastify Jitter Units Support Lexer Parser Elab Dense DenseSem DenseMerge DenseOnlineMerge DenseOnlineFold DenseOnlineWin DenseEval DenseWin DenseVisitor DenseSat Explain ExtZ.
-From RV Require DenseOnlineMon DenseOnlineForest ParserDeclOracle.
+From RV Require DenseOnlineMon DenseOnlineForest DenseOnlineReset ParserDeclOracle.
 Import ListNotations.
 
 Definition zformula := @formula ExtZVal.
@@ -126,6 +126,16 @@ Definition run_onlforest (pk : zformula -> zformula -> pkind) (F Q : list zformu
       Some (rets, map (fun r => (map (fun j => DenseOnlineForest.forest_get j r) (seq 0 (length F)),
                                  map (fun q => DenseOnlineForest.forest_get_sub q r) Q)) rs)
   | _, _ => None
+  end.
+
+(* update() and reset() calls on ONE dense-time online monitor object (DenseOnlineReset.run_api): the updates come in segments,
+   a reset() between two consecutive segments; mode 0: reset() as the interpreter does it (set_ast again), mode 1: the
+   inherited reset (reset visitor + the reset() methods of the operations).  The lists returned, segment by segment. *)
+Definition run_onlmonreset (mode : nat) (pk : zformula -> zformula -> pkind) (p : zformula)
+  (segs : list (list (list (list (Z * extz))))) : option (list (list (list (tz * extz)))) :=
+  match mode with
+  | O => DenseOnlineReset.run_api ExtZArith pk p segs
+  | _ => DenseOnlineReset.run_api_inherited ExtZArith pk p segs
   end.
 
 (* parse() of a whole specification text: ParserDeclOracle.run_parsefile *)
